@@ -1466,6 +1466,9 @@ func (p *Prog) wellFormedPath(x any, maxSeg int) string {
 				idx = n // = n
 			case 1:
 				idx = n + 1 + p.r.Intn(3) // > n
+				if p.r.chance(0.03) {
+					idx = pickOf(p.r, []int{127, 128, 255, 256, 511, 512, 513, 600, 1023, 1024}) // far beyond the end: padded with nil up to there
+				}
 			default:
 				if n > 0 {
 					idx = p.r.Intn(n)
@@ -1519,6 +1522,11 @@ func (p *Prog) wellFormedPath(x any, maxSeg int) string {
 
 func heapProgram(r *R, prof string) *Prog {
 	p := &Prog{m: &Machine{pred: true}, r: r, prof: prof, tags: map[string]bool{}}
+	switch prof {
+	case "C05", "C06", "C08", "C10", "C11":
+		// (Go strings are byte strings: values that are not UTF-8 are stored, copied, compared and handed back byte for byte)
+		p.scalars = append(append([]*V{}, heapScalars...), vstr("caf\xe9"), vstr("\xff"), vstr("a\xc0\xafb"))
+	}
 	// the public API may panic while the generator itself reads the containers (Keys, Count, Get ...) on a broken tree:
 	// that is a failure of the program generated so far, not of the harness
 	if tryLib(func() { heapProgramBody(p, r, prof) }) {
@@ -1924,6 +1932,9 @@ func heapProgramBody(p *Prog, r *R, prof string) {
 						tf = fmt.Sprintf("#%d%s", c.Count(), pickOf(r, []string{".a", "#0", ""}))
 					default:
 						tf = "."
+					}
+					if r.chance(0.35) {
+						tf = pickOf(r, []string{"", "#", ".", "a", "0"}) // the empty string and other paths shorter than one segment
 					}
 				} else if len(paths) > 0 && r.chance(0.7) {
 					tf = p.corruptPath(pickOf(r, paths).path)
